@@ -205,7 +205,15 @@ def run(ctx):
             continue
         n8 += 1
         def side_false(side):
-            return lambda x: x[0] == "bool" and x[1] is False and any(t == "cell:Binary." + side for t in x[2])
+            def pred(x):
+                if x[0] == "bool":
+                    return x[1] is False and any(t == "cell:Binary." + side for t in x[2])
+                if x[0] == "cmp" and x[1] == "Eq":      # `result == Some(false)`
+                    for a, b in ((x[2], x[3]), (x[3], x[2])):
+                        if ("cell:Binary." + side) in a and any(t in ("const:Option::Some(0)", "const:Option::Some(false)") for t in b):
+                            return True
+                return False
+            return pred
         l_ok = zx.every_path_has(bi, side_false("left"))
         r_ok = zx.every_path_has(bi, side_false("right"))
         either = zx.every_path_has(bi, lambda x: side_false("left")(x) or side_false("right")(x))
